@@ -110,6 +110,7 @@ func init() {
 			rules.V2(rc, 2)
 			rules.S19(rc)
 			rules.K1w(rc, func(stem string) bool { return strings.Contains(stem, "denseTranspose") }, 4)
+			rules.EP(rc, nil, 100)
 			rules.T7(rc)
 			rules.SV(rc, 20)
 			rules.WC(rc, 15)
@@ -153,6 +154,7 @@ func init() {
 			rules.S3(rc)
 			rules.S20(rc)
 			rules.T10(rc)
+			rules.EP(rc, nil, 100)
 			rules.T7(rc)
 			rules.S17(rc)
 			rules.SV(rc, 20)
@@ -179,6 +181,7 @@ func init() {
 			rules.S18(rc)
 			rules.T9(rc)
 			rules.T10(rc)
+			rules.EP(rc, nil, 100)
 			rules.B2(rc)
 			rules.T8(rc)
 			rules.T7(rc)
@@ -261,6 +264,7 @@ func init() {
 			rules.S2(rc)
 			rules.SP(rc, "C15", 4)
 			rules.LGuards(rc, "C15")
+			rules.O6(rc) // a recycled tensor header carries no mask and no mask policy into its next life
 			rules.LF(rc, 20)
 			rules.TMask(rc)
 			rules.E1(rc, fileFilterName("dense_mask_filling.go", "dense_mask_inspection.go", "dense.go", "iterator.go", "iterator_mult.go"), 5)
@@ -284,6 +288,7 @@ func init() {
 			rules.LF(rc, 20)
 			rules.K1(rc, rules.Families(rc.P), func(f string) bool { return strings.HasPrefix(f, "tensor.handleFuncOpts") || strings.HasPrefix(f, "tensor.prepData") }, 2)
 			rules.V1(rc)
+			rules.EP(rc, nil, 100)
 			rules.O8(rc)
 			rules.S9(rc)
 			rules.M2(rc, nil, 40, 900)
@@ -483,6 +488,7 @@ func init() {
 		Assume: []string{"interface calls resolve to the module's implementing types (CHA restricted to the module)", "flow-insensitive origin tracing through locals and captured variables (over-approximates aliases)"},
 		Run: func(rc *rules.RC) {
 			rules.O11(rc, 1)
+			rules.EP(rc, nil, 100)
 			rules.LGuards(rc, "C19")
 			rules.M2W(rc, 700)
 			rules.MK(rc, 15)
